@@ -195,7 +195,7 @@ func runC03(r *mc.Run) {
 		idv := c.Choose("idversion", 8)
 		lev := c.Choose("levels", 3)
 		memb := c.Choose("member", 5)
-		sigf := c.Choose("sigfield", 8)
+		sigf := c.Choose("sigfield", 12)
 		hdr := c.Choose("header", 14)
 		id := "menu/" + c.ID()
 		if !r.Want(id) {
@@ -304,6 +304,25 @@ func runC03(r *mc.Run) {
 			sigJSON = `"zz` + sigHex[2:] + `"`
 		case 7:
 			sigJSON = `"` + strings.ToUpper(sigHex) + `"` // same signature bytes
+		case 8, 9, 10, 11:
+			// a genuine signature one of whose components starts (8, 9) / ends (10, 11) with a zero octet, sent with that
+			// zero moved to the other end of the component: another number, not a signature of this document
+			off := 32 * ((sigf - 8) % 2)
+			lead := sigf < 10
+			sg := signers[signer].key.SignRawWhere(signed, func(r, s []byte) bool {
+				c := append(append([]byte{}, r...), s...)[off : off+32]
+				if lead {
+					return c[0] == 0 && c[31] != 0
+				}
+				return c[31] == 0 && c[0] != 0
+			})
+			comp := append([]byte(nil), sg[off:off+32]...)
+			if lead {
+				copy(sg[off:], append(comp[1:], 0))
+			} else {
+				copy(sg[off:], append([]byte{0}, comp[:31]...))
+			}
+			sigJSON = `"` + hex.EncodeToString(sg) + `"`
 		}
 		var parts []string
 		if memberJSON != "" {
